@@ -58,6 +58,9 @@ def run_case(cs):
     root = os.path.join(area, "root")
     dest = os.path.join(area, "dest")
     skel = rng.choice([[], [], ["K"], ["K", "K/L"], ["K", "K/L", "K/L/M"], ["A", "B"]])
+    # the folders that carry nested histories get names from several classes (hidden, blanks, non-ASCII, dots)
+    ren = {n: rng.choice([n, n, "." + n.lower(), n + " x", n + "\u00e4", n + ".", n + "._" + n]) for n in ["K", "L", "M", "A", "B"]}
+    skel = ["/".join(ren[c] for c in s.split("/")) for s in skel]
     tree = {s: None for s in skel}
     tree["plain"] = None
     for s in [""] + list(tree):
